@@ -17,6 +17,7 @@ class Instance:
     gpu_workers: list[str] = field(default_factory=list)
     gpu_tasks: list[str] = field(default_factory=list)
     kw: dict[tuple[str, str, str], str | int] | None = None   # optional: how each edge binds (harness only)
+    trace_only: bool = False                   # too large to model-check in the quick tier: recorded executions only
 
     @property
     def tasks(self) -> list[str]:
@@ -91,6 +92,9 @@ def shapes() -> dict[str, tuple[dict, list]]:
     S["multiout_join"] = ({"g": ["0", "1"], "u": one}, [("g", "0", "u"), ("g", "1", "u")])
     S["isolated2"] = ({"a": one, "b": one}, [])
     S["vee"] = ({"a": one, "b": one, "c": one, "k": one}, [("a", "0", "k"), ("b", "0", "k"), ("c", "0", "k")])
+    S["multiout3"] = ({"g": ["0", "1", "2"], "u": one, "v": one}, [("g", "0", "u"), ("g", "2", "u"), ("g", "1", "v")])
+    S["sixtasks"] = ({"a": one, "b": one, "c": one, "d": one, "p": one, "q": one},
+                     [("a", "0", "b"), ("a", "0", "c"), ("b", "0", "d"), ("c", "0", "d"), ("p", "0", "q")])
     S["ladder"] = ({"a": one, "b": one, "c": one, "d": one},
                    [("a", "0", "b"), ("a", "0", "c"), ("b", "0", "d"), ("c", "0", "d"), ("a", "0", "d")])
     return S
@@ -125,6 +129,13 @@ def quick_instances() -> list[Instance]:
     add("multiout_join", 2, 1, [("g", "0"), ("u", "0")], "mid_sink")
     add("fanin", 2, 1, [("k", "0")], "gpu", gpu_workers=["h1.w0"], gpu_tasks=["k"])
     add("twocomp", 2, 1, [("b", "0"), ("p", "0")], "gpu", gpu_workers=["h1.w0"], gpu_tasks=["p"])
+    # larger shapes and clusters: recorded executions (and every delivery order) only
+    for shape, nh, nw, ext, tag in [("diamond", 2, 2, [("s", "0"), ("k", "0")], "src_sink"), ("fanout", 2, 2, [("m1", "0"), ("m2", "0")], "sinks"),
+                                    ("ladder", 2, 1, [("a", "0"), ("d", "0")], "src_sink"), ("vee", 3, 1, [("k", "0")], "sink"),
+                                    ("threecomp", 3, 1, [("b", "0"), ("q", "0")], "two"), ("multiout3", 2, 1, [("g", "1"), ("u", "0")], "mid_sink"),
+                                    ("sixtasks", 2, 2, [("a", "0"), ("d", "0"), ("q", "0")], "src_sinks")]:
+        outs, edges = S[shape]
+        I.append(Instance(f"{shape}_{nh}x{nw}_{tag}", outs, edges, cluster(nh, nw), ext, trace_only=True))
     return I
 
 
